@@ -123,6 +123,9 @@ def extract_table(cf, rep):
 
 
 def run(repo, rep, tier):
+    rep.rule("R-C04-9", "(shared with C07) the label map returned for one spectrum is not the buffer the next call writes (a held map would follow the next spectrum): no function-static or file-scope object in specpart_wrap.c other than the method / module tables")
+    from . import cnative as _cn
+    _cn.wrapper_state(_cn.wrap(repo), rep, "R-C04-9")
     rep.rule("R-C04-1", "every guarded store neigh[k+9n] = e decomposes (exact polynomial arithmetic, n = i + mk*j) as "
                         "(i+di) + mk*j' with a legal di and a j' that is j-1, j, j+1 or the circular wrap, in range under "
                         "its guard; for each position class the enabled displacements are exactly the 8-neighbourhood "
